@@ -984,4 +984,37 @@ func modeC09() {
 		q.id = uint16(5000 + i)
 		in.send(j.lst, "", q, 5*time.Second, nil)
 	})
+	// responses the proxy makes up itself obey the limit too: a query with ten questions (more than 512 octets,
+	// legal on the wire) is answered NOTIMP within the client's limit on every listener ...
+	par(len(allListeners), func(i int) {
+		for _, sz := range []int{-1, 600} {
+			q := mkq(fmt.Sprintf("%s.a-rather-long-label-to-make-the-question-section-large.and-another-long-label-for-the-same-purpose.mq.test.", uniq()))
+			q.nq, q.nqdistinct = 10, true
+			q.opt, q.optsize = sz >= 0, uint16(max(sz, 0))
+			q.id = uint16(5600 + i)
+			if allListeners[i] == "quic" {
+				q.id = 0
+			}
+			in.send(allListeners[i], "", q, 5*time.Second, nil)
+		}
+	})
+	// ... and so is the REFUSED that a client gets whose rate-limit bucket is empty
+	inl, err := newInst("c09-lim", instOpts{listeners: []string{"udp", "tcp"}, upstreams: map[string]string{"u2": "tcp"}, rules: []ruleSpec{{Forward: "u2"}},
+		clients: []string{"127.0.7.1", "127.0.7.2", "127.0.7.3"}, limiter: router.LimiterConfig{Client: router.ClientLimiterConfig{Limit: 1, Burst: 2}}})
+	if err != nil {
+		panic(err)
+	}
+	defer inl.close()
+	for k, src := range []string{"127.0.7.1", "127.0.7.2", "127.0.7.3"} {
+		for n := 0; n < 4; n++ { // the first queries use the bucket up
+			inl.sendMay("udp", src, mkq(fmt.Sprintf("%s.r0t60d0.lim.test.", uniq())), 2*time.Second)
+		}
+		for _, sz := range []int{-1, 600} {
+			q := mkq(fmt.Sprintf("%s.a-rather-long-label-to-make-the-question-section-large.and-another-long-label-for-the-same-purpose.mq.test.", uniq()))
+			q.nq, q.nqdistinct = 10, true
+			q.opt, q.optsize = sz >= 0, uint16(max(sz, 0))
+			q.id = uint16(5700 + k)
+			inl.sendMay("udp", src, q, 2*time.Second)
+		}
+	}
 }
